@@ -182,22 +182,37 @@ func (p *Path) intrinsic(caller *frame, fn *ssa.Function, name string, args []Va
 	case "errors.Is":
 		return smt.ConstBool(p.errorsIs(caller, args[0].(Iface), args[1].(Iface), 0)), true
 	case "internal/bytealg.IndexByteString", "strings.IndexByte":
+		if s0, c := args[0].(Str), args[1].(*smt.Term); s0.isConcrete() && c.IsConst() {
+			return intConst(int64(strings.IndexByte(s0.c, byte(c.C)))), true
+		}
 		return p.indexByte(args[0].(Str).bytesOrAbort(p), args[1].(*smt.Term)), true
 	case "internal/bytealg.IndexByte", "bytes.IndexByte":
 		return p.indexByte(p.byteSlice(args[0]), args[1].(*smt.Term)), true
 	case "internal/bytealg.CountString":
+		if s0, c := args[0].(Str), args[1].(*smt.Term); s0.isConcrete() && c.IsConst() {
+			return intConst(int64(strings.Count(s0.c, string([]byte{byte(c.C)})))), true
+		}
 		return p.countByte(args[0].(Str).bytesOrAbort(p), args[1].(*smt.Term)), true
 	case "internal/bytealg.Count":
 		return p.countByte(p.byteSlice(args[0]), args[1].(*smt.Term)), true
 	case "internal/bytealg.Equal", "bytes.Equal":
 		return p.equalBytes(p.byteSlice(args[0]), p.byteSlice(args[1])), true
 	case "strings.Index":
+		if a, b := args[0].(Str), args[1].(Str); a.isConcrete() && b.isConcrete() {
+			return intConst(int64(strings.Index(a.c, b.c))), true
+		}
 		return p.indexSeq(args[0].(Str).bytesOrAbort(p), args[1].(Str).bytesOrAbort(p)), true
 	case "bytes.Index":
 		return p.indexSeq(p.byteSlice(args[0]), p.byteSlice(args[1])), true
 	case "internal/stringslite.Index":
+		if a, b := args[0].(Str), args[1].(Str); a.isConcrete() && b.isConcrete() {
+			return intConst(int64(strings.Index(a.c, b.c))), true
+		}
 		return p.indexSeq(args[0].(Str).bytesOrAbort(p), args[1].(Str).bytesOrAbort(p)), true
 	case "internal/stringslite.IndexByte":
+		if s0, c := args[0].(Str), args[1].(*smt.Term); s0.isConcrete() && c.IsConst() {
+			return intConst(int64(strings.IndexByte(s0.c, byte(c.C)))), true
+		}
 		return p.indexByte(args[0].(Str).bytesOrAbort(p), args[1].(*smt.Term)), true
 	case "strings.Clone", "internal/stringslite.Clone":
 		return args[0], true
